@@ -97,6 +97,9 @@ func runC03(c *Ctx) {
 	c.r038(pk, fd)
 	c.r0310(pk, fd)
 	c.r0311(pk, fd)
+	c.r0313(pk, fd)
+	// an attribute wrongly marked boolean loses its value: the table check of C17, restricted to the attribute traits
+	c.alsoUnder(map[string]string{"R17.htmltraits": "R03.12"}, func(construct string) bool { return strings.HasPrefix(construct, "html.attrMap[") || strings.HasPrefix(construct, "floor/attrMap") }, func() { c.ruleHTMLTraits() })
 	c.r033(pk, fd)
 	c.r034(pk, fd)
 }
@@ -896,4 +899,62 @@ func (c *Ctx) r0311(pk *packages.Package, fd *ast.FuncDecl) {
 		c.R.Check(p == nil && len(use) > 0, rule, construct, c.pos(y.Stmt), "a test of the next element against script / template lies on every path to the use of the flag", "the end tag is omitted whatever follows: a script or template element in place of the next sibling (`<ul><li>a</li><script>x</script></ul>`) becomes a child of the element that should have been closed: "+pathStr(c, g, p))
 	}
 	c.R.Floor(rule, "omitEndTag = true assignments", n, 4)
+}
+
+// R03.13: text is thrown away unseen only where the content model has no text.
+func (c *Ctx) r0313(pk *packages.Package, fd *ast.FuncDecl) {
+	const rule = "R03.13"
+	c.R.Rule(rule, "html.(*Minifier).Minify discards a text token without looking at it (`tb.Shift()` of a peeked TextToken, result unused) right after the tags of the select family, where only white space can stand in a conforming document. The elements named by the enclosing test of t.Hash are a subset of {select, optgroup, option}: datalist, for one, holds phrasing content as fallback for browsers without datalist support (`<datalist>or pick from the list: <select>…` loses its text)")
+	info := pk.TypesInfo
+	h := c.loadHash(rule, "html")
+	if h == nil {
+		return
+	}
+	g := c.graph(pk, fd)
+	allowed := map[string]bool{"select": true, "optgroup": true, "option": true}
+	n := 0
+	for _, y := range g.Nodes {
+		es, ok := y.Stmt.(*ast.ExprStmt)
+		if !ok || y.Kind != flow.KStmt {
+			continue
+		}
+		call, ok := es.X.(*ast.CallExpr)
+		if !ok || !strings.HasSuffix(calleeName(info, call), ".(TokenBuffer).Shift") {
+			continue
+		}
+		isText := false
+		for _, f := range g.DomFacts(y) {
+			if f.Value && f.Test.Kind == flow.KCond {
+				s := nospace(str(f.Test.Expr))
+				if strings.HasSuffix(s, ".TokenType==html.TextToken") && !strings.HasPrefix(s, "t.") {
+					isText = true
+				}
+			}
+		}
+		if !isText {
+			continue
+		}
+		n++
+		// the enclosing element test
+		var names []string
+		found := false
+		for p := c.P.Parent(es); p != nil && !found; p = c.P.Parent(p) {
+			if ifs, ok := p.(*ast.IfStmt); ok && strings.Contains(str(ifs.Cond), "t.Hash") {
+				if nm, ok := c.hashDisjunction(info, h, ifs.Cond, "t.Hash"); ok {
+					names, found = nm, true
+				}
+			}
+			if _, isCase := p.(*ast.CaseClause); isCase {
+				break
+			}
+		}
+		var bad []string
+		for _, nm := range names {
+			if !allowed[nm] {
+				bad = append(bad, nm)
+			}
+		}
+		c.R.Check(found && len(bad) == 0, rule, fmt.Sprintf("html.Minifier.Minify/text token discarded#%d only in the select family", n), c.pos(es), "after tags of "+strings.Join(names, ", "), "a text token is discarded unseen after a tag of "+strings.Join(bad, ", ")+" (or without a test of the element at all): that element may contain text, which disappears from the document")
+	}
+	c.R.Floor(rule, "discarded text tokens", n, 2)
 }
